@@ -1,6 +1,9 @@
 from vlib import runner, sysprops
 
-PARTIAL = ['known finding: limiter at its limit and sink not ready']
+PARTIAL = [
+    'aborts-at-the-deadline clause: proved up to the last timer-queue poll of an idle-going channel poll reporting nothing expired (C06_aborts_at_deadline_partial); that this implies no tracked request is due needs completeness of the timer-wheel emulation (in progress)',
+    'known finding: limiter at its limit and sink not ready (expirations unprocessed)',
+]
 
 
 def run(tier, seed, replay):
